@@ -300,6 +300,13 @@ func podScenario(r *rand.Rand, marker bool) scenario {
 	s.World.ErrKind = r.Intn(8)
 	s.LVs = candidateLVs([]map[string]string{ls}, s.Cfg.Defaults)
 	p := admPod(r, marker, "the-pod", s.LVs)
+	if !marker && r.Intn(100) < 3 {
+		// many offending containers with long names: every violated control must still be listed in full
+		p.Spec.Containers = nil
+		for k := 0; k < 40; k++ {
+			p.Spec.Containers = append(p.Spec.Containers, corev1.Container{Name: fmt.Sprintf("container-with-a-rather-long-name-%02d", k), Image: "img"})
+		}
+	}
 	s.Req = adm.ReqSpec{Group: "", Resource: "pods", Namespace: pickNS(r), Name: pick(r, []string{"the-pod", "the-pod", "the-pod", "the-pod", ""}), User: pickUser(r), Op: "CREATE"} // "": a generateName create
 	switch x := r.Intn(100); {
 	case x < 45:
